@@ -18,6 +18,7 @@ import (
 	"errors"
 	"fmt"
 	"io"
+	"log/slog"
 	"net/http"
 	"net/netip"
 	"net/url"
@@ -92,8 +93,13 @@ func hnEff(v int64) int64 {
 	return v
 }
 
-func (q hnQCfg) config(server bool, seed uint64) *quic.Config {
+func (q hnQCfg) config(server bool, seed uint64, ql *hnQLog) *quic.Config {
+	var lg *slog.Logger
+	if ql != nil {
+		lg = slog.New(ql)
+	}
 	return &quic.Config{
+		QLogLogger:               lg,
 		TLSConfig:                hnTLS(server, seed),
 		MaxBidiRemoteStreams:     q.maxBidi,
 		MaxUniRemoteStreams:      q.maxUni,
@@ -139,6 +145,9 @@ func hnDrawFaults(c vs.Chooser, faulty bool) vs.PacketFaults {
 			f.ReorderMax = time.Duration(vs.Pick(c, 5, 50, 400)) * time.Millisecond
 		}
 		f.HealAt = time.Duration(vs.Pick(c, 500, 1000, 3000, 5000)) * time.Millisecond
+		if f.LossPct+f.DupPct+f.ReorderPct == 0 {
+			f.LossPct = vs.Pick(c, 5, 1, 10, 30)
+		}
 		if vs.Pct(c, 30) {
 			// partition (everything sent inside the window is lost), far below the
 			// smallest idle timeout used (15 s)
@@ -147,6 +156,60 @@ func hnDrawFaults(c vs.Chooser, faulty bool) vs.PacketFaults {
 		}
 	}
 	return f
+}
+
+// hnQLog receives the connections' own qlog events (endpoint level only: one
+// start and one close event per connection) and keeps why each connection ended.
+type hnQLog struct {
+	mu      *sync.Mutex
+	closed  *[]string // "<vantage>:<trigger>"
+	vantage string
+}
+
+func newHnQLog() *hnQLog { return &hnQLog{mu: &sync.Mutex{}, closed: &[]string{}} }
+
+func (h *hnQLog) Enabled(_ context.Context, l slog.Level) bool { return l >= quic.QLogLevelEndpoint }
+func (h *hnQLog) WithGroup(string) slog.Handler                { return h }
+func (h *hnQLog) WithAttrs(attrs []slog.Attr) slog.Handler {
+	for _, a := range attrs {
+		if a.Key == "vantage_point" {
+			for _, g := range a.Value.Group() {
+				if g.Key == "type" {
+					return &hnQLog{mu: h.mu, closed: h.closed, vantage: g.Value.String()}
+				}
+			}
+		}
+	}
+	return h
+}
+func (h *hnQLog) Handle(_ context.Context, r slog.Record) error {
+	if r.Message != "connectivity:connection_closed" {
+		return nil
+	}
+	trigger := ""
+	r.Attrs(func(a slog.Attr) bool {
+		if a.Key == "trigger" {
+			trigger = a.Value.String()
+		}
+		return true
+	})
+	h.mu.Lock()
+	*h.closed = append(*h.closed, h.vantage+":"+trigger)
+	h.mu.Unlock()
+	return nil
+}
+
+// timeoutDeaths lists the connections that ended by idle or handshake timeout.
+func (h *hnQLog) timeoutDeaths() []string {
+	h.mu.Lock()
+	defer h.mu.Unlock()
+	var out []string
+	for _, c := range *h.closed {
+		if strings.HasSuffix(c, ":idle_timeout") || strings.HasSuffix(c, ":handshake_timeout") {
+			out = append(out, c)
+		}
+	}
+	return out
 }
 
 type hnField struct{ k, v string }
@@ -461,6 +524,10 @@ func hnDrawPlan(rt *rapid.T, cfg string) *hnPlan {
 	c := vs.RapidChooser{T: rt}
 	p := &hnPlan{cfg: cfg}
 	p.cli, p.srv = hnDrawQCfg(c), hnDrawQCfg(c)
+	// One timeout for both endpoints: a server that gives up a handshake the
+	// faults have starved (legitimate, counted) is then noticed by the client
+	// within the same period instead of at the end of its own, longer one.
+	p.srv.idle = p.cli.idle
 	p.randSeed = uint64(c.Intn(1 << 30))
 	p.noGzip = vs.Bool(c)
 	p.faults = hnDrawFaults(c, cfg == "fault")
@@ -509,6 +576,9 @@ func hnDrawPlan(rt *rapid.T, cfg string) *hnPlan {
 			}
 			bcap := min(reqCap, minChunk*600) // every chunk is a DATA frame and a flush
 			q.body = min(vs.SizeBiased(c, bcap, 1, 1199, 4096, 16384, 32768, 65536, 262144), bcap)
+			if vs.Pct(c, 12) {
+				q.body = bcap - c.Intn(min(bcap, 3)+1)/2
+			}
 			if vs.Pct(c, 50) && q.body > 0 {
 				q.declLen = int64(q.body)
 			}
@@ -686,6 +756,7 @@ type hnRun struct {
 	dialDone bool
 	okResp   int
 	nfaults  int
+	qlog     *hnQLog
 }
 
 func (r *hnRun) setViol(v *vs.Violation) {
@@ -708,7 +779,13 @@ func (r *hnRun) logf(i int, format string, args ...any) {
 	r.mu.Unlock()
 }
 
+// connState is the state of the connection: "alive", "none", "idle_timeout" /
+// "handshake_timeout" if either endpoint's connection ended that way (from the
+// connections' own close events), else "closed: ...".
 func (r *hnRun) connState() string {
+	if d := r.qlog.timeoutDeaths(); len(d) > 0 {
+		return d[0][strings.IndexByte(d[0], ':')+1:]
+	}
 	r.mu.Lock()
 	cc := r.cc
 	r.mu.Unlock()
@@ -740,8 +817,12 @@ func (r *hnRun) excused(i int, side string) (bool, string) {
 		return true, "caller_closed"
 	case side == "read" && q.respMis < 0:
 		return true, "response_shorter_than_declared"
+	case side == "read" && q.respMis > 0:
+		// (this server cuts the overlong write at the declared length; a reader
+		// that instead sees the excess and reports it is equally fine)
+		return true, "response_longer_than_declared"
 	}
-	if st := r.connState(); hnTimeoutDeath(st) {
+	if st := r.connState(); hnTimeoutDeath(st) && r.p.cfg != "clean" {
 		vs.G.Inc("run.conn_died_" + st)
 		return true, st
 	}
@@ -1339,7 +1420,8 @@ func hnRunC34(t *testing.T, rt *rapid.T) {
 			return f
 		}
 		srvNode, cliNode := pnet.Node("10.0.0.1:443"), pnet.Node("10.0.0.2:5000")
-		srvCfg, cliCfg := p.srv.config(true, p.randSeed*2+2), p.cli.config(false, p.randSeed*2+1)
+		r.qlog = newHnQLog()
+		srvCfg, cliCfg := p.srv.config(true, p.randSeed*2+2, r.qlog), p.cli.config(false, p.randSeed*2+1, r.qlog)
 		srvEP, err1 := quic.NewEndpoint(srvNode, srvCfg)
 		cliEP, err2 := quic.NewEndpoint(cliNode, nil)
 		if err1 != nil || err2 != nil {
@@ -1380,6 +1462,18 @@ func hnRunC34(t *testing.T, rt *rapid.T) {
 			defer r.mu.Unlock()
 			return r.viol
 		}
+		if d := os.Getenv("VERIF_H3NET_DUMP_AT"); d != "" {
+			if dd, err := time.ParseDuration(d); err == nil {
+				tm := time.AfterFunc(dd, func() {
+					buf := make([]byte, 1<<18)
+					fmt.Printf("VERIF-DEBUG stacks at %v:\n%s\n", dd, buf[:runtime.Stack(buf, true)])
+					if r.cc != nil {
+						fmt.Printf("VERIF-DEBUG client conn %+v\n", *r.cc.qconn)
+					}
+				})
+				defer tm.Stop()
+			}
+		}
 		sim.Run()
 		viol = sim.Viol
 		r.mu.Lock()
@@ -1390,7 +1484,7 @@ func hnRunC34(t *testing.T, rt *rapid.T) {
 		r.mu.Unlock()
 		state := r.connState()
 		if viol == nil && dialDone && dialErr != nil {
-			if strings.Contains(dialErr.Error(), "handshake timeout") {
+			if strings.Contains(dialErr.Error(), "handshake timeout") && cfg != "clean" {
 				vs.G.Inc("run.handshake_timeout")
 			} else {
 				viol = vs.Violf("C34", "dial_failed", "net:dial_failed", "the HTTP/3 client could not connect to the HTTP/3 server over a network that heals at %v: %v", p.faults.HealAt, dialErr)
@@ -1399,7 +1493,7 @@ func hnRunC34(t *testing.T, rt *rapid.T) {
 		if viol == nil && sim.Stuck {
 			pending := sim.PendingTasks()
 			sort.Strings(pending)
-			if hnTimeoutDeath(state) {
+			if hnTimeoutDeath(state) && cfg != "clean" {
 				vs.G.Inc("run.stuck_after_conn_death")
 			} else {
 				var logs []string
@@ -1409,6 +1503,16 @@ func hnRunC34(t *testing.T, rt *rapid.T) {
 				}
 				r.mu.Unlock()
 				viol = vs.Violf("C34", "liveness", "net:stuck_after_heal", "%v of simulated time after the network healed (at %v) these tasks have not finished (connection %s, %d datagrams in flight): %v\n%s", 120*time.Second, p.faults.HealAt, state, pnet.InFlight(), pending, strings.Join(logs, "\n"))
+			}
+		}
+		if viol == nil && hnTimeoutDeath(state) {
+			if cfg == "clean" {
+				// No datagram is ever lost or late here and simulated time only passes
+				// when no task can run and nothing is in flight: an idle period as long
+				// as the idle timeout means both endpoints were waiting for each other.
+				viol = vs.Violf("C34", "liveness", "net:timeout_on_perfect_network", "the connection died of %s on a network without faults (idle timeouts %v/%v)", state, p.cli.idle, p.srv.idle)
+			} else {
+				vs.G.Inc("run.conn_died_" + state)
 			}
 		}
 		if viol == nil && !hnTimeoutDeath(state) && state != "alive" && state != "none" {
@@ -2032,19 +2136,14 @@ func hbDrawUni(c vs.Chooser, mode string, what string) *hbStream {
 			case "oversize_len":
 				frames[j].lenOver, frames[j].lenW = 1<<62-1, 8
 			case "trunc_fin":
-				if hnAvoid("ctrl_trunc") {
-					op = ""
-					break
+				if !hnAvoid("ctrl_trunc") {
+					st.end = "trunc"
 				}
-				st.end = "trunc"
 			case "fin":
 				st.end = "fin"
 			case "reset":
 				st.end = "reset"
 				st.resetCode = 0x10c
-			}
-			if op := st.ops; true {
-				_ = op
 			}
 			st.ops = append(st.ops, "ctrl_damage")
 		}
@@ -2073,16 +2172,8 @@ func hbDrawUni(c vs.Chooser, mode string, what string) *hbStream {
 	if st.kind == "ctrl" {
 		st.wire = append(st.wire, hbSerialize(frames)...)
 		if st.end == "trunc" {
-			ref := hbParse(st.wire[len(hbAppendVarint(nil, st.utype, tw)):])
-			base := len(st.wire) - func() int {
-				n := 0
-				for _, f := range frames {
-					_ = f
-				}
-				return n
-			}()
-			_ = base
 			pre := len(hbAppendVarint(nil, st.utype, tw))
+			ref := hbParse(st.wire[pre:])
 			if len(ref) > 0 {
 				f := ref[c.Intn(len(ref))]
 				cut := pre + f.hdr + vs.SizeBiased(c, max(f.end-f.hdr-1, 0), 1, 2, f.pay-f.hdr)
@@ -2139,8 +2230,8 @@ func hbDrawPlan(rt *rapid.T) *hbPlan {
 	if vs.Pct(c, 85) {
 		p.streams = append(p.streams, hbDrawUni(c, p.mode, "control"))
 	}
-	for j, m := 0, vs.Pick(c, 0, 0, 1, 1, 2); j < m; j++ {
-		p.streams = append(p.streams, hbDrawUni(c, p.mode, vs.Pick(c, "unknown", "unknown", "qpack", "push", "second_control")))
+	for j, m := 0, vs.Pick(c, 0, 0, 0, 1, 1, 2); j < m; j++ {
+		p.streams = append(p.streams, hbDrawUni(c, p.mode, vs.Pick(c, "unknown", "unknown", "qpack", "unknown", "push", "qpack", "second_control")))
 	}
 	// order in which the peer's stream tasks are created is part of the plan
 	for i := len(p.streams) - 1; i > 0; i-- {
@@ -2412,7 +2503,11 @@ func (r *hbRun) onPanic(where string, rec any) {
 	}
 	buf := make([]byte, 16384)
 	stack := string(buf[:runtime.Stack(buf, false)])
-	r.setViol(&vs.Violation{Prop: "C35", Oracle: "panic", Sig: "panic:" + hbPanicSig(stack), Detail: fmt.Sprintf("panic on a %s goroutine of the code under test: %v\n%s", where, rec, stack)})
+	side := "srv"
+	if r.p.mode == "client" {
+		side = "cli"
+	}
+	r.setViol(&vs.Violation{Prop: "C35", Oracle: "panic", Sig: side + ":panic:" + hbPanicSig(stack), Detail: fmt.Sprintf("panic on a %s goroutine of the code under test: %v\n%s", where, rec, stack)})
 }
 
 // hbAcceptStreams mirrors genericConn.acceptStreams (9 lines) with one change:
@@ -2640,6 +2735,8 @@ func (r *hbRun) byzStream(st *hbStream) func(tk *vs.Task) {
 	}
 }
 
+var hbDebugStreams []*quic.Stream
+
 // srvHandler is the http.Handler of the real server in server mode.
 func (r *hbRun) srvHandler(w http.ResponseWriter, req *http.Request) {
 	br, ok := req.Body.(*bodyReader)
@@ -2648,6 +2745,9 @@ func (r *hbRun) srvHandler(w http.ResponseWriter, req *http.Request) {
 		return
 	}
 	id := br.st.stream.ID()
+	if os.Getenv("VERIF_H3NET_DUMP_AT") != "" {
+		hbDebugStreams = append(hbDebugStreams, br.st.stream)
+	}
 	r.mu.Lock()
 	st := r.byID[id]
 	r.mu.Unlock()
@@ -2708,6 +2808,14 @@ func (r *hbRun) clientCaller(i int) func(tk *vs.Task) {
 			req.Body = body
 			defer body.Close()
 		}
+		defer func() {
+			if rec := recover(); rec != nil {
+				if vs.IsAbort(rec) {
+					panic(rec)
+				}
+				r.onPanic("RoundTrip / response body", rec)
+			}
+		}()
 		res, err := cc.RoundTrip(req)
 		r.mu.Lock()
 		o.invoked++
@@ -2821,6 +2929,9 @@ func hnRunC35(t *testing.T, rt *rapid.T) {
 				tm := time.AfterFunc(dd, func() {
 					buf := make([]byte, 1<<18)
 					fmt.Printf("VERIF-DEBUG stacks at %v:\n%s\n", dd, buf[:runtime.Stack(buf, true)])
+					for _, qs := range hbDebugStreams {
+						fmt.Printf("VERIF-DEBUG stream %+v\n", *qs)
+					}
 				})
 				defer tm.Stop()
 			}
@@ -2835,7 +2946,7 @@ func hnRunC35(t *testing.T, rt *rapid.T) {
 		var loops sync.WaitGroup
 		if p.mode == "server" {
 			vs.G.Inc("probe.server_mode_run")
-			srvCfg := p.real.config(true, p.randSeed*2+2)
+			srvCfg := p.real.config(true, p.randSeed*2+2, nil)
 			srvEP, err1 = quic.NewEndpoint(srvNode, srvCfg)
 			cliEP, err2 = quic.NewEndpoint(cliNode, nil)
 			if err1 != nil || err2 != nil {
@@ -2861,7 +2972,7 @@ func hnRunC35(t *testing.T, rt *rapid.T) {
 			}()
 			sim.Go("dial", "C35", func(tk *vs.Task) {
 				tk.Step("dial")
-				bq, err := cliEP.Dial(ctx, "udp", "10.0.0.1:443", p.byz.config(false, p.randSeed*2+1))
+				bq, err := cliEP.Dial(ctx, "udp", "10.0.0.1:443", p.byz.config(false, p.randSeed*2+1, nil))
 				r.mu.Lock()
 				r.bq, r.dialErr = bq, err
 				r.mu.Unlock()
@@ -2874,14 +2985,14 @@ func hnRunC35(t *testing.T, rt *rapid.T) {
 			})
 		} else {
 			vs.G.Inc("probe.client_mode_run")
-			srvEP, err1 = quic.NewEndpoint(srvNode, p.byz.config(true, p.randSeed*2+2))
+			srvEP, err1 = quic.NewEndpoint(srvNode, p.byz.config(true, p.randSeed*2+2, nil))
 			cliEP, err2 = quic.NewEndpoint(cliNode, nil)
 			if err1 != nil || err2 != nil {
 				harness = fmt.Sprint("endpoint: ", err1, err2)
 				cancel()
 				return
 			}
-			cliCfg := p.real.config(false, p.randSeed*2+1)
+			cliCfg := p.real.config(false, p.randSeed*2+1, nil)
 			tp := &transport{endpoint: cliEP, config: cliCfg, tr1: &http.Transport{DisableCompression: true}, activeConns: make(map[*clientConn]struct{})}
 			sim.Go("accept", "C35", func(tk *vs.Task) {
 				tk.Step("accept")
@@ -2999,6 +3110,13 @@ func (r *hbRun) final(harness *string) *vs.Violation {
 	// Is the connection still up? (seen from the peer's side)
 	state := hnConnState(r.bq)
 	connCode, connHasCode := uint64(0), false
+	if state == "alive" && r.rq != nil {
+		// the real side may have closed the connection while its CONNECTION_CLOSE
+		// was lost on the way to the peer
+		if rs := hnConnState(r.rq); rs != "alive" {
+			state = "closed by the real side (" + rs + ")"
+		}
+	}
 	if state != "alive" {
 		connCode, connHasCode = hbH3Code(r.bq.Wait(canceledCtx))
 		if connHasCode {
@@ -3017,6 +3135,15 @@ func (r *hbRun) final(harness *string) *vs.Violation {
 	side := "srv"
 	if p.mode == "client" {
 		side = "cli"
+	}
+	if hnTimeoutDeath(state) {
+		// A connection that idled out is a QUIC-level matter (flow-control stall,
+		// lost CONNECTION_CLOSE), not a statement about HTTP/3 framing: counted only.
+		vs.G.Inc("run.conn_died_" + state)
+		if os.Getenv("VERIF_H3NET_JUDGE_IDLE") != "" {
+			return vs.Violf("C35", "idle_stall", "quic:idle_stall", "the connection died of %s although the peer had bytes to send and the reader was waiting for them", state)
+		}
+		return nil
 	}
 	if allStrict && state != "alive" {
 		return vs.Violf("C35", "valid_input_rejected", side+":conn_closed_on_valid_input", "every stream the peer sent is a valid HTTP/3 stream (unknown frame types in legal positions only) but the connection ended: %s", state)
